@@ -202,6 +202,8 @@ func dhtIterate(nodes []NodeInfo, key []byte, n int, fn func(node NodeInfo) (new
 	if n < 1 {
 		panic(n)
 	}
+	// seen holds every node which has been passed to fn, so that no node is contacted twice.
+	seen := make(map[p2p.PeerID]struct{})
 	for len(nodes) > 0 {
 		// TODO: use a heap
 		slices.SortFunc(nodes, func(a, b NodeInfo) bool {
@@ -212,6 +214,10 @@ func dhtIterate(nodes []NodeInfo, key []byte, n int, fn func(node NodeInfo) (new
 		}
 		var node NodeInfo
 		node, nodes = pop(nodes)
+		if _, exists := seen[node.ID]; exists {
+			continue
+		}
+		seen[node.ID] = struct{}{}
 
 		newNodes, cont := fn(node)
 		if !cont {
@@ -220,6 +226,9 @@ func dhtIterate(nodes []NodeInfo, key []byte, n int, fn func(node NodeInfo) (new
 		for _, newNode := range newNodes {
 			if !DistanceLt(key, newNode.ID[:], node.ID[:]) {
 				continue // ignore peers that aren't actually closer
+			}
+			if _, exists := seen[newNode.ID]; exists {
+				continue
 			}
 			if !contains(nodes, newNode, func(a, b NodeInfo) bool {
 				return a.ID == b.ID
